@@ -208,8 +208,26 @@ def sw_prim(rng, n, kind=None, froude_max=2.5, ratio=10.0, g=9.81):
 
 
 def fdata_prim(model, mesh, prim):
-    """field from primitive data through the real prim2cons"""
-    return ffield.fdata(model, mesh, model.prim2cons([np.array(p, dtype=float) for p in prim]))
+    """field from primitive data through the real prim2cons (integer-typed data -- see int_prim -- stay integer-typed)"""
+    return ffield.fdata(model, mesh, model.prim2cons([np.array(p) if np.asarray(p).dtype.kind in "iu" else np.array(p, dtype=float) for p in prim]))
+
+
+def int_prim(rng, mname, n):
+    """primitive data given as INTEGERS (integer arrays, as a user typing 1 instead of 1. produces them): flowdyn.field keeps
+    the type it is given, so the conserved data are integer arrays too; only operator-level checks use these (time integration
+    of integer-typed fields stops with numpy's casting error in the unchanged library: loud, and not one of the properties)"""
+    uni = rng.random() < 0.4
+    def ints(lo, hi):
+        v = rng.integers(lo, hi + 1, size=1 if uni else n)
+        return np.array(np.broadcast_to(v, (n,)), dtype=np.int64 if rng.random() < 0.7 else np.int32)
+    if mname in ("convection", "burgers"):
+        q = ints(-4, 4)
+        if not np.any(q != 0):
+            q = q + 1
+        return [q], "int"
+    if mname == "shallowwater":
+        return [ints(1, 5), ints(-3, 3)], "int"
+    return [ints(1, 5), ints(-3, 3), ints(1, 6)], "int"
 
 
 # ----------------------------------------------------------------------------- 1D scenarios
@@ -365,7 +383,7 @@ def _warm_up(rng, s, bc, mach_max, ratio):
 
 
 def scenario1d(rng, models=MODELS1D, bc=None, recons=ALL_RECONS, meshkinds=MESH_KINDS, ncell=None, nmin=3, nmax=24,
-               dkind=None, fluxes=None, mach_max=2.0, ratio=10.0, source=None, mname=None, section=None, warm=None):
+               dkind=None, fluxes=None, mach_max=2.0, ratio=10.0, source=None, mname=None, section=None, warm=None, intdata=0.0):
     s = Scn()
     s.mname = mname or str(rng.choice(models))
     s.model, s.mparams = make_model(s.mname, rng, source=source, section=section)
@@ -377,6 +395,8 @@ def scenario1d(rng, models=MODELS1D, bc=None, recons=ALL_RECONS, meshkinds=MESH_
     s.num, s.rname = recon(str(rng.choice(recons)), rng)
     n = s.mesh.ncell
     s.prim, s.dkind = prim_for(s.mname, s.model, rng, n, dkind, mach_max=mach_max, ratio=ratio)
+    if intdata and rng.random() < intdata:
+        s.prim, s.dkind = int_prim(rng, s.mname, n)
     s.bckind = bc or str(rng.choice(["per", "sym", "open"]))
     if s.bckind == "sym" and s.mname in ("convection", "burgers"):
         s.bckind = "open"
